@@ -63,6 +63,10 @@ func (c *Case) overlapClass(o order) string {
 					via = "/declared-with-no-direct-dependency"
 				}
 			}
+			if via == "/declared-through-AddEnd" {
+				// one cause whatever the relation of the two paths is
+				return "declared-through-AddEnd"
+			}
 			return c.overlapRelation(o) + via
 		}
 	}
